@@ -166,7 +166,8 @@ def run_config(chk, config):
               "an AVP with the H bit is not decoded to Hidden{attribute type, exactly the payload octets}: %s" % hid["bad"][:1],
               {"rule": "Hidden keeps the clear attribute type and the whole value"},
               {"obligation": "H bit => Hidden{attribute_type: wire type, value: the length-6 payload octets}", "paths": hid["n"]})
-    # ---- 5. control header
+    # ---- 5. control header and AVP order (the decoded list must be the encoded list: encoder walks self.avps forward)
+    order_clause(chk, fx, a, config)
     engw, wpaths = writer_paths(chk, fx, a, "Control")
     engr, rrets = reader_paths(chk, fx, a)
     worder = None
@@ -186,6 +187,11 @@ def run_config(chk, config):
               "control-header | order", "control header field order differs: encoder %s, decoder %s" % (worder, rorder),
               {"encoder": worder, "decoder": rorder},
               {"obligation": "control header: same field at each position on both sides", "encoder": worder, "decoder": rorder})
+
+
+def order_clause(chk, fx, a, config):
+    from rules.c06 import avp_order_check
+    avp_order_check(chk, fx, a, config)
 
 
 def layout_name(c):
